@@ -5,7 +5,7 @@ TMP = tempfile.mkdtemp()
 HDR = '''From Coq Require Import String.
 From PS Require Import Base GFDefs PackDefs StoreDefs MiscDefs StrDefs LangDefs ApiDefs SpecDefs SpecApi.
 From PS Require Import GFProofs MiscProofs CoinProofs PackProofs PackTheorems StoreProofs SeedProofs ApiLemmas RefineProofs RoundTrip.
-From PS Require Import StrProofs CTieBase CTieLang CTiePhrase CTiePhraseEv CTieSplit CTieApi CTieDecode CTieEncode CTieLocals CTieInject CTieCmp CTieSearch CTieClosed CodeTheorems.
+From PS Require Import StrProofs CTieBase CTieLang CTiePhrase CTiePhraseEv CTieSplit CTieApi CTieDecode CTieEncode CTieLocals CTieInject CTieCmp CTieSearch CTieClosed CodeTheorems CodeMachine.
 From PS.Gen Require Import Consts PrivConsts Langs.
 From PS.Gen Require CFuns CApi.
 Local Open Scope N_scope.
@@ -23,7 +23,7 @@ def typ(name):
 IMPORTS = '''
 (* ---- the tie to the code: src/polyseed.c as TRANSLATED on this run (Gen/CApi.v) ---- *)
 From Coq Require Import String.
-From PS Require Import Base GFDefs PackDefs StoreDefs MiscDefs StrDefs LangDefs ApiDefs SpecDefs SpecApi GFProofs PackProofs StoreProofs RefineProofs RoundTrip CTieBase CTieLang CTiePhrase CTiePhraseEv CTieSplit CTieApi CTieDecode CTieEncode CTieLocals CTieInject CTieCmp CTieSearch CTieClosed CodeTheorems.
+From PS Require Import Base GFDefs PackDefs StoreDefs MiscDefs StrDefs LangDefs ApiDefs SpecDefs SpecApi GFProofs PackProofs StoreProofs RefineProofs RoundTrip CTieBase CTieLang CTiePhrase CTiePhraseEv CTieSplit CTieApi CTieDecode CTieEncode CTieLocals CTieInject CTieCmp CTieSearch CTieClosed CodeTheorems CodeMachine.
 From PS.Gen Require Import Consts PrivConsts Langs.
 From PS.Gen Require CFuns.
 From PS.Gen Require CApi.
@@ -48,7 +48,10 @@ PLAN = {
  'C11': [('api_get_birthday','tie_get_birthday','polyseed_get_birthday as translated'), ('api_create','tie_create','polyseed_create as translated against the mirror step (birthday = birthday_encode of the injected clock)')],
  'C12': [('involution','code_crypt_twice','ON THE CODE: the translated polyseed_crypt applied twice with the same password returns the struct byte for byte - tie composed with C12_involution'),
          ('api_crypt','tie_crypt','polyseed_crypt as translated against the mirror step: one KDF call on the normalised password, the xor of 19 bytes, the cleared top bits, the toggled flag, the new check value, three wipes')],
- 'C13': [('api_create','tie_create','polyseed_create as translated = the mirror step the refinement is about'),
+ 'C13': [('machine','cstep_ok','THE TRANSLATED CODE AS A MACHINE: one call of the Gallina generated from the current polyseed.c (every public function except polyseed_inject, which is tied separately) on a state - table, mask, heap of blocks, allocator counter - gives the same next state, output and events as the mirror step, for every well-formed call'),
+         ('machine_run','crun_run','... and so does every history of calls'),
+         ('code_refinement','code_refinement','composed with C13_refinement: any history of calls of the translated code gives, call by call, the outputs of the abstract seed machine and ends in a related state'),
+('api_create','tie_create','polyseed_create as translated = the mirror step the refinement is about'),
          ('api_load','tie_load','polyseed_load as translated = the mirror step'),
          ('api_decode','tie_decode','polyseed_decode as translated = the mirror step (up to the wipe of `idx`, which is inside polyseed_phrase_decode)'),
          ('api_decode_explicit','tie_decode_explicit','polyseed_decode_explicit as translated = the mirror step'),
